@@ -8,7 +8,9 @@ def run(tier, seed):
     wd = workdir(PROP)
     build_harness()
     nrand = 6000 if tier == "quick" else 100000
-    gens = [{"module": "MC_Prog", "constants": {"NDefs": 2, "U": '"small"' if tier == "quick" else '"medium"'}, "invariants": ["OrderFree", "Emit"]}]
+    gens = [{"module": "MC_Prog", "constants": {"NDefs": 2, "U": '"small"' if tier == "quick" else '"medium"'}, "invariants": ["OrderFree", "Emit"]},
+            # alias structure: every program of 3 (thorough: 4) definitions named from {A,B,C,D} whose bodies are names, nat, opt/vec of a name or a service
+            {"module": "MC_Prog", "constants": {"NDefs": 3 if tier == "quick" else 4, "U": '"alias"'}, "invariants": ["OrderFree", "Emit"]}]
     trace, bad = standard_flow(res, wd, gens, "prog", "Trace_Prog", nrand, seed, harness_extra=["wf"])
     recs = read_lines(trace, bad.keys())
     acc = 0
